@@ -1,128 +1,8 @@
-(* C19 — completeness of the partition generator (reference enumerator complete for every n; the
-   generator is duplicate-free and as long as the reference for n <= 40, checked by vm_compute) and
-   the bounded agreement of the cardinalities with brute-force counts of samples. *)
+(* C19 — bounded agreement of the cardinalities with brute-force counts of samples (vm_compute certificates).
+   (Completeness of the partition generator is proved for every n in OrbitsComplete.v.) *)
 From Coq Require Import List Arith NArith Bool Lia Permutation Sorted.
 From SFV Require Import C19.Similarity C19.SimilarityProofs.
 Import ListNotations.
-
-(* ---------- reference enumerator: partitions of n with parts <= k ---------- *)
-Fixpoint parts (fuel n k : nat) : list (list nat) :=
-  match fuel with
-  | 0 => if n =? 0 then [[]] else []
-  | S f => if n =? 0 then [[]]
-           else flat_map (fun j => map (cons j) (parts f (n - j) j)) (seq 1 (Nat.min n k))
-  end.
-
-Lemma parts_complete fuel : forall n k l, n <= fuel ->
-  desc l -> Forall (fun v => 1 <= v) l -> Forall (fun v => v <= k) l -> list_sum l = n ->
-  In l (parts fuel n k).
-Proof.
-  induction fuel as [|f IH]; intros n k l Hn D P K HS.
-  - assert (Hz : n = 0) by lia. rewrite Hz in *. simpl.
-    destruct l as [|x t]; [left; auto|].
-    inversion P as [|? ? Hx Ht]. simpl in HS. lia.
-  - simpl. destruct l as [|j t].
-    + simpl in HS. rewrite <- HS. left; auto.
-    + inversion P as [|? ? Hj Pt]. inversion K as [|? ? Kj Kt]. inversion D as [|? ? Dt Dj].
-      simpl in HS.
-      destruct (n =? 0) eqn:E; [apply Nat.eqb_eq in E; lia|].
-      apply in_flat_map. exists j. split.
-      * apply in_seq. lia.
-      * apply in_map. apply IH; auto; try lia.
-Qed.
-
-(* ---------- duplicate-freeness by a strict lexicographic chain ---------- *)
-Fixpoint lex_lt (a b : list nat) : bool :=
-  match a, b with
-  | [], [] => false
-  | [], _ :: _ => true
-  | _ :: _, [] => false
-  | x :: a', y :: b' => (x <? y) || ((x =? y) && lex_lt a' b')
-  end.
-
-Lemma lex_lt_irrefl a : lex_lt a a = false.
-Proof. induction a; simpl; auto. rewrite Nat.ltb_irrefl, Nat.eqb_refl. simpl; auto. Qed.
-
-Lemma lex_lt_trans a : forall b c, lex_lt a b = true -> lex_lt b c = true -> lex_lt a c = true.
-Proof.
-  induction a as [|x a IH]; intros [|y b] [|z c] H1 H2; simpl in *; try discriminate; auto.
-  apply orb_true_iff in H1. apply orb_true_iff in H2. apply orb_true_iff.
-  destruct H1 as [H1|H1], H2 as [H2|H2].
-  - left. apply Nat.ltb_lt in H1, H2. apply Nat.ltb_lt. lia.
-  - apply andb_true_iff in H2. destruct H2 as [E _]. apply Nat.eqb_eq in E. subst. auto.
-  - apply andb_true_iff in H1. destruct H1 as [E _]. apply Nat.eqb_eq in E. subst. auto.
-  - apply andb_true_iff in H1. apply andb_true_iff in H2. destruct H1 as [E1 L1], H2 as [E2 L2].
-    apply Nat.eqb_eq in E1, E2. subst. right. rewrite Nat.eqb_refl. simpl. eapply IH; eauto.
-Qed.
-
-Fixpoint chain (l : list (list nat)) : bool :=
-  match l with
-  | a :: (b :: _) as t => lex_lt a b && chain t
-  | _ => true
-  end.
-
-Lemma chain_above a t : chain (a :: t) = true -> Forall (fun b => lex_lt a b = true) t.
-Proof.
-  revert a. induction t as [|b t IH]; intros a H; [constructor|].
-  simpl in H. apply andb_true_iff in H. destruct H as [H1 H2]. constructor; auto.
-  specialize (IH b H2). eapply Forall_impl; [|exact IH]. simpl. intros c Hc. eapply lex_lt_trans; eauto.
-Qed.
-
-Lemma chain_tail a t : chain (a :: t) = true -> chain t = true.
-Proof. destruct t; simpl; auto. intros H. apply andb_true_iff in H. tauto. Qed.
-
-Lemma chain_nodup l : chain l = true -> NoDup l.
-Proof.
-  induction l as [|a t IH]; intros H; constructor.
-  - intros Hin. pose proof (chain_above _ _ H) as F. rewrite Forall_forall in F.
-    specialize (F _ Hin). rewrite lex_lt_irrefl in F. discriminate.
-  - apply IH. eapply chain_tail; eauto.
-Qed.
-
-Lemma in_le_sum o : forall v, In v o -> v <= list_sum o.
-Proof. induction o as [|x t IH]; simpl; intros v H; [destruct H|]. destruct H as [->|H]; [lia|]. specialize (IH _ H). lia. Qed.
-
-(* the per-n certificate, evaluated by vm_compute *)
-Definition orbits_cert (n : nat) : bool :=
-  chain (map (@rev nat) (orbits n)) && (length (parts n n n) <=? length (orbits n)).
-
-Lemma orbits_complete_from_cert n l : 1 <= n -> orbits_cert n = true ->
-  is_partition n l -> In l (orbits n).
-Proof.
-  intros Hn C [D [P HS]]. apply andb_true_iff in C. destruct C as [C1 C2].
-  apply Nat.leb_le in C2.
-  assert (ND : NoDup (orbits n)).
-  { eapply NoDup_map_inv. apply chain_nodup. exact C1. }
-  assert (I : incl (orbits n) (parts n n n)).
-  { intros o Ho. destruct (orbits_sound n o Hn Ho) as [D' [P' S']].
-    apply parts_complete; auto.
-    apply Forall_forall. intros v Hv. rewrite <- S'. apply in_le_sum; auto. }
-  pose proof (NoDup_length_incl ND C2 I) as I'. apply I'.
-  apply parts_complete; auto.
-  apply Forall_forall. intros v Hv. rewrite <- HS. apply in_le_sum; auto.
-Qed.
-
-Lemma orbits_nodup_from_cert n : orbits_cert n = true -> NoDup (orbits n).
-Proof.
-  intros C. apply andb_true_iff in C. destruct C as [C1 _].
-  eapply NoDup_map_inv. apply chain_nodup. exact C1.
-Qed.
-
-Definition BOUND := 40.
-
-Lemma orbits_cert_upto : forallb orbits_cert (seq 1 BOUND) = true.
-Proof. vm_compute. reflexivity. Qed.
-
-(* every partition of n is generated, exactly once, for 1 <= n <= 40 *)
-Theorem orbits_complete_bounded n l : 1 <= n <= BOUND -> is_partition n l -> In l (orbits n) /\ NoDup (orbits n).
-Proof.
-  intros Hn HP. pose proof orbits_cert_upto as C. rewrite forallb_forall in C.
-  assert (Hc : orbits_cert n = true) by (apply C, in_seq; unfold BOUND in *; lia).
-  split; [apply orbits_complete_from_cert; auto; lia|apply orbits_nodup_from_cert; auto].
-Qed.
-
-Definition orbits_complete_statement : Prop :=
-  forall n l, 1 <= n -> is_partition n l -> In l (orbits n) /\ NoDup (orbits n).
 
 (* ---------- cardinalities against brute-force counts (bounded) ---------- *)
 Fixpoint all_samples (m k : nat) : list (list nat) :=
@@ -158,7 +38,7 @@ Definition samples_in_event (k c m : nat) : N :=
 
 Definition card_cert (km : nat * nat) : bool :=
   let (k, m) := km in
-  forallb (fun o => (m <? length o) || N.eqb (orbit_cardinality o m) (samples_in_orbit o m k)) (orbits k).
+  forallb (fun o => N.eqb (orbit_cardinality o m) (samples_in_orbit o m k)) (orbits k).
 Definition event_cert (kcm : nat * nat * nat) : bool :=
   let '(k, c, m) := kcm in N.eqb (event_cardinality k c m) (samples_in_event k c m).
 
@@ -167,35 +47,34 @@ Definition pairs (a b : list nat) : list (nat * nat) := flat_map (fun x => map (
 Lemma card_cert_upto : forallb card_cert (pairs (seq 1 6) (seq 0 6)) = true.
 Proof. vm_compute. reflexivity. Qed.
 
-(* for 1..6 photons and 0..5 modes: orbit_cardinality = number of samples in the orbit *)
+(* for 1..6 photons and 0..5 modes: orbit_cardinality = number of samples in the orbit (0 when the orbit has
+   more parts than there are modes) *)
 Theorem orbit_cardinality_counts_bounded k m o :
-  1 <= k <= 6 -> m <= 5 -> In o (orbits k) -> length o <= m ->
-  orbit_cardinality o m = samples_in_orbit o m k.
+  1 <= k <= 6 -> m <= 5 -> In o (orbits k) -> orbit_cardinality o m = samples_in_orbit o m k.
 Proof.
-  intros Hk Hm Ho Hl. pose proof card_cert_upto as C. rewrite forallb_forall in C.
+  intros Hk Hm Ho. pose proof card_cert_upto as C. rewrite forallb_forall in C.
   assert (Hin : In (k, m) (pairs (seq 1 6) (seq 0 6))).
   { unfold pairs. apply in_flat_map. exists k. split; [apply in_seq; lia|]. apply in_map, in_seq. lia. }
   specialize (C _ Hin). unfold card_cert in C. rewrite forallb_forall in C. specialize (C _ Ho).
-  apply orb_true_iff in C. destruct C as [C|C]; [apply Nat.ltb_lt in C; lia|]. apply N.eqb_eq; auto.
+  apply N.eqb_eq; auto.
 Qed.
 
-(* event_cardinality = number of samples in the event, when there are at least as many modes as
-   photons (1 <= k <= m <= 5, 1 <= c <= 5) *)
+(* event_cardinality = number of samples in the event (1 <= k <= 5, 1 <= c <= 5, m <= 5) *)
 Lemma event_cert_upto :
-  forallb (fun k => forallb (fun c => forallb (fun m => (m <? k) || event_cert (k, c, m)) (seq 0 6)) (seq 1 5)) (seq 1 5) = true.
+  forallb (fun k => forallb (fun c => forallb (fun m => event_cert (k, c, m)) (seq 0 6)) (seq 1 5)) (seq 1 5) = true.
 Proof. vm_compute. reflexivity. Qed.
 
 Theorem event_cardinality_counts_bounded k c m :
-  1 <= k <= m -> m <= 5 -> 1 <= c <= 5 -> event_cardinality k c m = samples_in_event k c m.
+  1 <= k <= 5 -> m <= 5 -> 1 <= c <= 5 -> event_cardinality k c m = samples_in_event k c m.
 Proof.
   intros Hk Hm Hc. pose proof event_cert_upto as C. rewrite forallb_forall in C.
   assert (C1 := C k ltac:(apply in_seq; lia)). rewrite forallb_forall in C1.
   assert (C2 := C1 c ltac:(apply in_seq; lia)). rewrite forallb_forall in C2.
   assert (C3 := C2 m ltac:(apply in_seq; lia)).
-  apply orb_true_iff in C3. destruct C3 as [C3|C3]; [apply Nat.ltb_lt in C3; lia|]. apply N.eqb_eq; auto.
+  apply N.eqb_eq; auto.
 Qed.
 
-(* with fewer modes than photons the source counts orbits that have more parts than modes *)
-Theorem event_cardinality_short_modes_refuted :
-  exists k c m, 1 <= k /\ 1 <= m /\ event_cardinality k c m <> samples_in_event k c m.
+(* the OLD variant (before commit 87b9aa4) counted orbits that have more parts than modes *)
+Theorem event_cardinality_pre87b9aa4_refuted :
+  exists k c m, 1 <= k /\ 1 <= m /\ event_cardinality_pre87b9aa4 k c m <> samples_in_event k c m.
 Proof. exists 5, 4, 2. split; [lia|]. split; [lia|]. vm_compute. discriminate. Qed.
